@@ -74,6 +74,13 @@ CLAIMED["C02"] = {
   "technique": "seeded model-based history search (deterministic simulation, single actor); composition ledger and additivity laws evaluated after every edit",
 }
 
+CLAIMED["C03"] = {
+  "text": "Seeded search over temperature paths (weakest fit: the law is pointwise, the history is the path): every run takes one (2-D shape class, library material) pair - 11 shapes x 37 materials that armi can expand (22 solids with an expansion correlation, 15 fluids/custom), all pairs covered round-robin by run index - with seed-chosen cold dimensions, input temperature inside the material's stated range, a path of 2-8 temperatures, hot and cold setDimension calls, a companion component with a linked dimension, and a second path to the same end temperature. At every path point: each expanding dimension == cold value x linear factor recomputed independently from the material's percent correlation; area ratio == factor^2; number densities / factor^2; mass per unit height constant; setDimension reads back; the linked dimension follows its target; fluids/custom keep their dimensions; two paths to the same temperature give the same area and densities. Sampling, not proof.",
+  "design_ref": "DESIGN.md §4 (C03)",
+  "note": "Trusted: worlds/c03.py arithmetic. Materials without a linear-expansion-percent correlation (15 of the library) are excluded because armi itself refuses hot dimensions for them (RuntimeError). 1e-10 relative.",
+  "technique": "seeded history search over temperature paths (deterministic simulation, single actor, swarm over shape x material); conservation ledger along the path and path-independence check",
+}
+
 NA = {
  "C07": "pure function of (grid, index): no event order, clock, I/O or fault to simulate; exhaustive enumeration over N rings is the right tool, not simulation (DESIGN.md §6)",
  "C08": "pure functions of (grid, cell, k) and of a block's contents; rotations appear only as workload in the simulated runs (DESIGN.md §6)",
